@@ -336,4 +336,13 @@ brk("C07", "c07-subms-unrounded", "ttconv/vtt/writer.py", '    if end is not Non
 brk("C18", "c18-subms-guard-log-only", "ttconv/srt/writer.py", '    if end is not None and round(end, 3) <= round(begin, 3):\n      # time codes have millisecond resolution: the cue would begin and end on the same time code\n      LOGGER.debug("Skipping an interval shorter than one millisecond.")\n      return\n', '    if end is not None and round(end, 3) <= round(begin, 3):\n      LOGGER.debug("Interval shorter than one millisecond.")\n', "RAISE-interval")
 ben("C07", "c07-benign-subms-nested", "ttconv/srt/writer.py", '    if end is not None and round(end, 3) <= round(begin, 3):\n', '    if end is not None:\n     if not round(end, 3) > round(begin, 3):\n')
 ben("C18", "c18-benign-subms-flipped", "ttconv/vtt/writer.py", '    if end is not None and round(end, 3) <= round(begin, 3):\n', '    if end is not None and round(begin, 3) >= round(end, 3):\n')
+
+# ---------------------------------------------------------------------------------------- rules added after round 5
+brk("C12", "c12-parse-ndf-nominal", "ttconv/time_code.py", "    if match is not None:\n      return SmpteTimeCode(int(match.group('ndf_h')),", "    if match is not None:\n      if base_frame_rate.denominator == 1001:\n        base_frame_rate = base_frame_rate * Fraction(1001, 1000)\n      return SmpteTimeCode(int(match.group('ndf_h')),", "FIN-parse")
+brk("C04", "c04-xmlspace-error-default", "ttconv/imsc/attributes.py", '        LOGGER.error("Bad xml:space value (%s)", value)\n', '        LOGGER.error("Bad xml:space value (%s)", value)\n        r = model.WhiteSpaceHandling.DEFAULT\n', "EXC-fallback")
+brk("C08", "c08-midrow-underline-sticky", "ttconv/scc/context.py", '      self.current_font_style = font_style\n      self.current_text_decoration = text_decoration\n', '      self.current_font_style = font_style\n      if text_decoration is not None:\n        self.current_text_decoration = text_decoration\n', "STYLE-complete")
+brk("C05", "c05-alpha-one-digit", "ttconv/imsc/style_properties.py", '      color_str = f"{color_str}{model_value.components[3]:02x}"', '      color_str = f"{color_str}{model_value.components[3]:x}"', "FMT-color")
+brk("C07", "c07-finish-last-only", "ttconv/vtt/writer.py", '    for paragraph in [p for p in self._paragraphs if p.get_end() is None]:\n', '    for paragraph in [p for p in self._paragraphs[-1:] if p.get_end() is None]:\n', "PAIR-default-end")
+ben("C07", "c07-benign-finish-listcopy", "ttconv/vtt/writer.py", '    for paragraph in [p for p in self._paragraphs if p.get_end() is None]:\n', '    for paragraph in list(self._paragraphs):\n      if paragraph.get_end() is not None:\n        continue\n')
+
 VARIANTS = V
